@@ -322,4 +322,136 @@ example : inRangeO (noticeQueueRange ⟨2024, 3, 1, 0, 0, 0, 0⟩).1 (noticeQueu
   inRangeO (noticeQueueRange ⟨2024, 3, 1, 0, 0, 0, 0⟩).1 (noticeQueueRange ⟨2024, 3, 1, 0, 0, 0, 0⟩).2
     (noticeQueueBySeqTimeKey [100] ⟨2024, 3, 1, 0, 0, 0, 1⟩) = false := by decide
 
+/-! ## Buy-order ids (x/dymns): id = type prefix ("10" Dym-Name / "20" alias) ++ decimal number -/
+
+/-- C19 "every created id is valid": for every asset type and every positive uint64 `n`,
+    `CreateBuyOrderId` does not panic, returns prefix ++ decimal(n), and that id passes
+    `IsValidBuyOrderId` -/
+theorem buy_order_id_created_valid (t : AssetType) (n : Nat) (h0 : 0 < n) (h : n < 2 ^ 64) :
+    createBuyOrderId t n = some (buyOrderIdPrefix t ++ decStr n) ∧
+      isValidBuyOrderId (buyOrderIdPrefix t ++ decStr n) = true := by
+  have hp := parseBuyOrderId_create t n h0 h
+  simp [createBuyOrderId, isValidBuyOrderId, hp]
+
+/-- the edge, stated: number 0 is rejected by the validator, so `CreateBuyOrderId(_, 0)` panics
+    (the keeper's counter starts at 1) -/
+theorem buy_order_id_zero_panics (t : AssetType) : createBuyOrderId t 0 = none := by
+  cases t <;> decide
+
+/-- C19 "round-trips exactly": the id created for (type, n) decomposes back to exactly (type, n) -/
+theorem buy_order_id_roundtrip (t : AssetType) (n : Nat) (id : Bytes) (h0 : 0 < n) (h : n < 2 ^ 64)
+    (hc : createBuyOrderId t n = some id) : parseBuyOrderId id = some (t, n) := by
+  rw [(buy_order_id_created_valid t n h0 h).1] at hc
+  cases hc; exact parseBuyOrderId_create t n h0 h
+
+/-- C19 "names one and only one object": the id is injective over (type, number) — for every pair
+    of naturals (no bound needed) -/
+theorem buy_order_id_injective (t t' : AssetType) (n n' : Nat) (id : Bytes)
+    (h : createBuyOrderId t n = some id) (h' : createBuyOrderId t' n' = some id) : t = t' ∧ n = n' := by
+  have key : ∀ (t : AssetType) (n : Nat), createBuyOrderId t n = some id →
+      buyOrderIdPrefix t ++ decStr n = id := by
+    intro t n h
+    simp only [createBuyOrderId] at h
+    split at h
+    · exact Option.some.inj h
+    · exact absurd h (by simp)
+  have e : buyOrderIdPrefix t ++ decStr n = buyOrderIdPrefix t' ++ decStr n' := by
+    rw [key t n h, key t' n' h']
+  have e1 := List.append_inj e (by rw [buyOrderIdPrefix_length, buyOrderIdPrefix_length])
+  exact ⟨buyOrderIdPrefix_inj _ _ e1.1, decStr_inj _ _ e1.2⟩
+
+/-- the type re-check of `BuyOrder.Validate` (`strings.HasPrefix(id, prefix of the order's type)`)
+    accepts a created id for its own type only -/
+theorem buy_order_id_type_prefix (t t' : AssetType) (n : Nat) :
+    isPrefix (buyOrderIdPrefix t') (buyOrderIdPrefix t ++ decStr n) = true ↔ t' = t := by
+  constructor
+  · intro h
+    obtain ⟨r, e⟩ := (isPrefix_iff _ _).1 h
+    have := List.append_inj e (by rw [buyOrderIdPrefix_length, buyOrderIdPrefix_length])
+    exact (buyOrderIdPrefix_inj _ _ this.1).symm
+  · rintro rfl; exact isPrefix_append _ _
+
+/-- every id the validator accepts is a type prefix followed by a decimal string of a positive uint64 -/
+theorem buy_order_id_valid_shape (id : Bytes) (h : isValidBuyOrderId id = true) :
+    ∃ t n, parseBuyOrderId id = some (t, n) ∧ id = buyOrderIdPrefix t ++ id.drop 2 ∧
+      parseU64 (id.drop 2) = some n ∧ 0 < n ∧ n < 2 ^ 64 := by
+  unfold isValidBuyOrderId at h
+  cases hp : parseBuyOrderId id with
+  | none => simp [hp] at h
+  | some p =>
+    obtain ⟨t, n⟩ := p
+    have := parseBuyOrderId_some id t n hp
+    refine ⟨t, n, rfl, this.1, this.2.1, this.2.2, ?_⟩
+    have h2 := this.2.1
+    unfold parseU64 at h2
+    split at h2
+    · simp at h2
+    · split at h2
+      · split at h2
+        · cases h2; assumption
+        · simp at h2
+      · simp at h2
+
+/-- the validator is looser than the constructor: decimal strings with leading zeros are accepted,
+    so two distinct *valid* id strings can decompose to the same (type, number).  They are still two
+    different store keys (`BuyOrderKey` is the raw id string, see `dymns_*` below) and only the
+    canonical one is ever created, so no record is reachable under two names; recorded as a remark. -/
+theorem buy_order_id_validator_not_injective_counterexample :
+    let a : Bytes := [49, 48, 49]       -- "101"
+    let b : Bytes := [49, 48, 48, 49]   -- "1001"
+    a ≠ b ∧ isValidBuyOrderId a = true ∧ isValidBuyOrderId b = true ∧
+      parseBuyOrderId a = parseBuyOrderId b ∧ createBuyOrderId .name 1 = some a := by decide
+
+-- non-vacuity (buy-order ids)
+example : createBuyOrderId .alias 18446744073709551615 =
+    some ([50, 48] ++ [49,56,52,52,54,55,52,52,48,55,51,55,48,57,53,53,49,54,49,53]) := by decide
+example : isValidBuyOrderId ([49, 48] ++ [49,56,52,52,54,55,52,52,48,55,51,55,48,57,53,53,49,54,49,54]) = false := by
+  decide
+
+/-! ## IRO denoms and plan keys (x/iro) -/
+
+/-- C19 "IRO token denoms round-trip": `RollappIDFromIRODenom(IRODenom(r)) = (r, true)` for every r -/
+theorem iro_denom_roundtrip (r : Bytes) : rollappIDFromIRODenom (iroDenom r) = some r := by
+  simp only [rollappIDFromIRODenom, cutPrefix, iroDenom, isPrefix_append, if_true]
+  rw [List.drop_left' rfl]
+
+/-- distinct rollapp ids have distinct IRO denoms -/
+theorem iro_denom_injective (r r' : Bytes) (h : iroDenom r = iroDenom r') : r = r' := by
+  simpa [iroDenom] using h
+
+/-- a denom names a rollapp exactly when it is that rollapp's IRO denom (one and only one object) -/
+theorem iro_denom_decode_iff (d r : Bytes) : rollappIDFromIRODenom d = some r ↔ d = iroDenom r := by
+  constructor
+  · intro h
+    simp only [rollappIDFromIRODenom, cutPrefix] at h
+    split at h
+    · rename_i hp
+      obtain ⟨x, e⟩ := (isPrefix_iff _ _).1 hp
+      subst e
+      simp only [Option.some.injEq] at h
+      rw [List.drop_left' rfl] at h
+      subst h; rfl
+    · simp at h
+  · rintro rfl; exact iro_denom_roundtrip r
+
+/-- plan keys and plans-by-rollapp keys are injective in their component -/
+theorem plan_key_injective (a b : Bytes) (h : planKey a = planKey b) : a = b := by
+  simpa [planKey] using h
+theorem plans_by_rollapp_key_injective (a b : Bytes) (h : plansByRollappKey a = plansByRollappKey b) : a = b := by
+  simpa [plansByRollappKey] using h
+
+/-- plan ids (every natural, hence every uint64) get distinct store keys -/
+theorem plan_key_by_id_injective (a b : Nat) (h : planKeyById a = planKeyById b) : a = b :=
+  decStr_inj a b (plan_key_injective _ _ h)
+
+/-- the IRO store's families (plan 0x01, plans-by-rollapp 0x02, last-plan-id 0x03, params 0x04) never collide -/
+theorem iro_families_disjoint (a b : Bytes) :
+    planKey a ≠ plansByRollappKey b ∧ planKey a ≠ [3] ∧ planKey a ≠ [4] ∧
+    plansByRollappKey b ≠ [3] ∧ plansByRollappKey b ≠ [4] := by
+  simp [planKey, plansByRollappKey]
+
+-- non-vacuity (IRO)
+example : rollappIDFromIRODenom [73, 82, 79, 47, 114, 95, 49, 45, 49] = some [114, 95, 49, 45, 49] ∧
+    rollappIDFromIRODenom [73, 82, 79, 120] = none := by decide
+
 end DymVerif.C19
